@@ -112,6 +112,12 @@ def shapes(quick=True):
                  "body": [("if", [(eq("s", 0), [choice("s", [(F(1, 2), c(0)), (F(1, 4), c(1)), (F(1, 4), c(2))])])], None),
                           asg("y", ("add", v("y"), v("s")))]},
                 [("E", {"y": 1})], "inequality-guard+stuck-with-prob-1/2"))
+    # guard that is a DISJUNCTION whose two sides can hold at the same time (overlap): the indicator of the negated guard
+    # needs the inclusion-exclusion term
+    out.append(({"types": [], "init": [asg("x", c(0)), asg("z", c(0)), asg("y", c(0))],
+                 "guard": ("or", eq("x", 0), eq("z", 0)),
+                 "body": [bern("x", F(1, 2)), bern("z", F(1, 3)), asg("y", ("add", v("y"), c(1)))]},
+                [("E", {"y": 1}), ("c", 2, {"y": 1})], "overlapping-or-guard"))
     # the same two-stage chain with two flags (n*r^n terms, two-valued types only)
     out.append(({"types": [], "init": [asg("a", c(0)), asg("b", c(0)), asg("y", c(0))], "guard": eq("b", 0),
                  "body": [asg("y", ("add", v("y"), c(1))),
